@@ -90,6 +90,92 @@ func sealKeys(fd *ast.FuncDecl, protoType string) (always, conditional []string)
 	return
 }
 
+// sealSources: for every proto key a SealEncode fills with a plain expression, the receiver field or getter the value
+// comes from (through at most one local variable), both lower-cased: ("scryptsharetarget", "scryptsharetarget").
+// Keys filled in loops / appends are not listed.
+func sealSources(fd *ast.FuncDecl, protoType string) [][2]string {
+	if fd == nil || fd.Recv == nil || len(fd.Recv.List) == 0 || len(fd.Recv.List[0].Names) == 0 {
+		return nil
+	}
+	recv := fd.Recv.List[0].Names[0].Name
+	locals := map[string]ast.Expr{}
+	fromRecv := func(e ast.Expr) string {
+		name := ""
+		ast.Inspect(e, func(m ast.Node) bool {
+			if name != "" {
+				return false
+			}
+			if se, ok := m.(*ast.SelectorExpr); ok {
+				if id, ok := se.X.(*ast.Ident); ok && id.Name == recv {
+					name = strings.ToLower(se.Sel.Name)
+					return false
+				}
+			}
+			return true
+		})
+		return name
+	}
+	source := func(e ast.Expr) string {
+		if u, ok := e.(*ast.UnaryExpr); ok {
+			e = u.X
+		}
+		if id, ok := e.(*ast.Ident); ok {
+			if d, ok := locals[id.Name]; ok {
+				return fromRecv(d)
+			}
+			return ""
+		}
+		return fromRecv(e)
+	}
+	var out [][2]string
+	varName := ""
+	ast.Inspect(fd.Body, func(m ast.Node) bool {
+		as, ok := m.(*ast.AssignStmt)
+		if !ok {
+			return true
+		}
+		for i, lhs := range as.Lhs {
+			if i >= len(as.Rhs) {
+				break
+			}
+			if id, ok := lhs.(*ast.Ident); ok {
+				if u, ok := as.Rhs[i].(*ast.UnaryExpr); ok {
+					if cl, ok := u.X.(*ast.CompositeLit); ok && src(cl.Type) == protoType {
+						varName = id.Name
+						for _, el := range cl.Elts {
+							if kv, ok := el.(*ast.KeyValueExpr); ok {
+								if s := source(kv.Value); s != "" {
+									out = append(out, [2]string{strings.ToLower(src(kv.Key)), s})
+								}
+							}
+						}
+						continue
+					}
+				}
+				if as.Tok.String() == ":=" {
+					locals[id.Name] = as.Rhs[i]
+				}
+			}
+			if se, ok := lhs.(*ast.SelectorExpr); ok && varName != "" && src(se.X) == varName {
+				if s := source(as.Rhs[i]); s != "" {
+					out = append(out, [2]string{strings.ToLower(se.Sel.Name), s})
+				}
+			}
+		}
+		return true
+	})
+	sort.Slice(out, func(i, j int) bool { return out[i][0] < out[j][0] })
+	return out
+}
+
+func leanPairList(l [][2]string) string {
+	var parts []string
+	for _, p := range l {
+		parts = append(parts, "(\"" + p[0] + "\", \"" + p[1] + "\")")
+	}
+	return "[" + strings.Join(parts, ", ") + "]"
+}
+
 func init() {
 	register("Seal", func() string {
 		wo := parseFile("core/types/wo.go")
@@ -110,6 +196,8 @@ func init() {
 			"\ndef woSealKeys : List String := " + leanStrList(wa) +
 			"\ndef woSealKeysAfterKawpow : List String := " + leanStrList(wc) +
 			"\ndef headerFields : List String := " + leanStrList(hf) +
-			"\ndef headerSealKeys : List String := " + leanStrList(append(append([]string{}, ha...), hcnd...))
+			"\ndef headerSealKeys : List String := " + leanStrList(append(append([]string{}, ha...), hcnd...)) +
+			"\ndef woSealSources : List (String × String) := " + leanPairList(sealSources(findFunc(wo, "WorkObjectHeader", "SealEncode"), "ProtoWorkObjectHeader")) +
+			"\ndef headerSealSources : List (String × String) := " + leanPairList(sealSources(findFunc(bl, "Header", "SealEncode"), "ProtoHeader"))
 	})
 }
